@@ -1,7 +1,7 @@
 """C15 — every request gets an answer; invalid input refused without effect."""
-from vlib.runner import KH, run_kani_group
+from vlib.mo import *
+from vlib.runner import KH, run_kani_group, run_mir_obligations
 
-ENGINES = "K"
 LEVEL = "other"
 EXPLANATION = "Kani/CBMC bounded verdicts over the real request validators with symbolic floats/ints (all 2^32 bit patterns per lane); see obligation_results."
 TRUSTED_BASE = ["Kani 0.68 MIR->goto translation", "CBMC 6.11 + CaDiCaL", "stubs: std::fmt::format -> empty String, RandomState::new -> fixed keys"]
@@ -22,5 +22,18 @@ HARNESSES = [
 ]
 
 
+H = "hnsw_backend::HnswBackend::"
+MOS = [
+    MO("O15.4/engine_refusal", "every engine write path goes through HnswBackend::insert, which runs normalize_in_place_if_needed and the index's own acceptance test (finite lanes, norm band) before the WAL append "
+       "(the value-level statement 'accepted by the pre-flight => accepted by the index' is Kani obligation O3.1 of C03)",
+       allof(only_via(H + "insert", WAL_APPEND, Arm(r"^discr\(try\(call (hnsw_backend::)?normalize_in_place_if_needed\)\)$", {"0"}, name="normalize_in_place_if_needed()? -> Ok")),
+             only_via(H + "insert", WAL_APPEND, Arm(r"^discr\(try\(call HnswVectorIndex::validate_vector\)\)$", {"0"}, name="index.validate_vector()? -> Ok")),
+             only_via("hnsw_index::HnswVectorIndex::validate_vector", stmt(r"^_0 = Result::<\(\), anyhow::Error>::Ok\(", name="return Ok(())"),
+                      Arm(r"^call <std::slice::Iter<'_, f32> as Iterator>::any::<", {"0"}, name="no non-finite lane")),
+             only_via("tiered_engine::TieredEngine::insert", call(r"= HotTier::insert_with_coherence\(", name="hot mirror"), Arm(r"^discr\(try\(call HnswBackend::insert\)\)$", {"0"}, name="cold_tier.insert()? -> Ok"))),
+       functions=[("hnsw_backend.rs", "insert"), ("hnsw_index.rs", "validate_vector"), ("tiered_engine.rs", "insert")], role="preflight-weaker-than-index"),
+]
+
+
 def run(tier, seed, notes):
-    return run_kani_group("C15", tier, "lib", {"api_validation.rs": "api_validation_proofs.rs"}, HARNESSES, jobs=6, notes=notes)
+    return run_mir_obligations("C15", tier, MOS, notes) + run_kani_group("C15", tier, "lib", {"api_validation.rs": "api_validation_proofs.rs"}, HARNESSES, jobs=6, notes=notes)
